@@ -1,10 +1,17 @@
 /- Line-protocol driver: one request per line on stdin, one reply per line on stdout.
    Unknown or undecodable requests answer "bad-op" (never a default value). -/
 import Curtsies.Driver.FmtStr
+import Curtsies.Driver.FSArray
 import Curtsies.Driver.Sgr
+import Curtsies.Driver.Window
+import Curtsies.Driver.Width
+import Curtsies.Driver.Keys
+import Curtsies.Driver.EscParse
+import Curtsies.Driver.Input
+import Curtsies.Driver.Atts
 open Curtsies.Driver
 
-def handlers : List (List String → Option String) := [fmtOps, sgrOps]
+def handlers : List (List String → Option String) := [fmtOps, fsaOps, widthOps, sgrOps, keyOps, escOps, windowOps, inputOps, attsOps]
 
 def step (line : String) : String :=
   let args := (line.trimAscii.toString.splitOn " ")
